@@ -26,7 +26,7 @@ def random_config(kind, rnd, max_flen=16):
     elif kind in ('dtf', 'dti'):
         c['biort'], c['qshift'] = rnd.choice(refs.BIORTS), rnd.choice(refs.QSHIFTS)
         c['J'] = rnd.choice([1, 2, 3])
-        c['shape'] = [rnd.choice([4, 5, 6, 8, 10, 12, 14]), rnd.choice([4, 6, 7, 8, 12])]
+        c['shape'] = [rnd.choice([4, 5, 6, 8, 10, 12, 14, 24, 36]), rnd.choice([4, 6, 7, 8, 12, 20, 40])]
     else:
         c['biort'] = rnd.choice(['near_sym_a', 'near_sym_b', 'near_sym_b_bp', 'antonini', 'legall'])
         c['qshift'] = 'qshift_b_bp' if c['biort'] == 'near_sym_b_bp' else rnd.choice(['qshift_a', 'qshift_b', 'qshift_c'])
@@ -100,6 +100,29 @@ class Adapter:
         z = np.zeros([1, 1] + sp)
         yl, yh, _ = refs.dtcwt_fwd(z, c['biort'], c['qshift'], c['J'])
         return [list(yl.shape[2:])] + [[6] + list(h.shape[3:]) + [2] for h in yh]
+
+    def true_gain(self, cap=900):
+        """largest absolute row sum of the operator, from one execution on all unit inputs (linear
+        transforms only); None when the operator is too large or the call raises"""
+        import torch
+        if not self.linear:
+            return None
+        sizes = [int(np.prod(s)) for s in self.arg_shapes]
+        n = sum(sizes)
+        if n > cap:
+            return None
+        eye = torch.eye(n, dtype=torch.float64)
+        parts = torch.split(eye, sizes, dim=1)
+        args = [p.reshape([n, 1] + s) for p, s in zip(parts, self.arg_shapes)]
+        keep = self.none_mask
+        try:
+            outs = self.apply(args)
+        except Exception:
+            return None
+        g = 0.0
+        for o in outs:
+            g = max(g, float(o.abs().sum(dim=0).max()))
+        return g
 
     def channels(self, C):
         return 3 if self.cell.get('colour') else C
